@@ -100,8 +100,13 @@ func TestTableSubjects(t *testing.T) {
 	for _, p := range []string{"get", "subscribe", "unsubscribe", "call", "auth", "new"} {
 		allSeqs(wsAlpha, L, func(s []string) { inputs = append(inputs, input{"ws", p, s}) })
 	}
-	for _, m := range []string{"GET", "POST"} {
-		allSeqs(httpAlpha, L, func(s []string) { inputs = append(inputs, input{"http", m, s}) })
+	// PUT, DELETE and PATCH are mapped to the call methods a, aa and aaa (world.go, family "subjects")
+	for _, m := range []string{"GET", "POST", "HEAD", "PUT", "DELETE", "PATCH"} {
+		ml := L
+		if m != "GET" && m != "POST" && ml > envInt("VERIF_SUBJ_MAPLEN", 3) {
+			ml = envInt("VERIF_SUBJ_MAPLEN", 3)
+		}
+		allSeqs(httpAlpha, ml, func(s []string) { inputs = append(inputs, input{"http", m, s}) })
 	}
 	// rids supplied by services: a reference value in a model, and the resource of a call response
 	allSeqs(wsAlpha, L, func(s []string) {
